@@ -63,6 +63,9 @@ def run(tier):
         if rec["ev"] == "Save":
             last_save = rec
             continue
+        if rec["ev"] == "File":
+            last_save = None
+            continue
         rt = v["rt"]
         if rt["v"] == "ok-skipped":
             continue
